@@ -292,10 +292,11 @@ func c04Untagged(c *Ctx) {
 				}
 			}
 		}
-		if !ok {
-			// per path (the lookups may have been written as one loop over a list of locations that the baseline view
-			// unrolled): on every way to a nil-error return exactly one untagged lookup, at most one located lookup,
-			// the located one first and only where the location is known to be non-empty
+		// per path (the lookups may have been written as one loop over a list of locations that the baseline view
+		// unrolled): on every way to a nil-error return exactly one untagged lookup, at most one located lookup,
+		// the located one FIRST (FindSOA takes the first SOA: round-5 seed c02k swapped the order in the v2 reader)
+		// and only where the location is known to be non-empty
+		if paths, enumerable := funcPaths(fn, 256); enumerable && len(paths) > 0 {
 			ok = c04LookupsPerPath(fn, isLookup, keyArg, fLocID)
 		}
 		c.Check(rule, fnName(fn)+"|located-then-untagged", ok, fn.Pos(), fmt.Sprintf("%d lookups: the located key under the non-empty-location test, the untagged key on every successful path", nl))
